@@ -44,6 +44,7 @@ const (
 	flagHotW = 1 << iota
 	flagHotR
 	flagUncontrolledMap
+	flagSync
 )
 
 var (
@@ -175,6 +176,7 @@ func fieldName(sel *types.Selection) string {
 type touch struct {
 	groups map[int]bool
 	w, r   bool
+	sync   bool
 }
 
 func (t *touch) add(g int, write bool) {
@@ -208,6 +210,7 @@ func (c *fileCtx) scanExpr(n ast.Node, t *touch) {
 					}
 				case types.MethodVal:
 					if f, ok := sel.Obj().(*types.Func); ok && isSyncPkg(f.Pkg()) {
+						t.sync = true
 						if obj, name := c.baseObject(x.X); obj != nil {
 							t.add(groupID(obj, name), true)
 						}
@@ -269,6 +272,7 @@ func (c *fileCtx) stmtTouch(s ast.Stmt) *touch {
 			for g := range it.groups {
 				t.add(g, it.w)
 			}
+			t.sync = t.sync || it.sync
 		}
 		c.scanExpr(x.Cond, t)
 	case *ast.ForStmt:
@@ -277,6 +281,7 @@ func (c *fileCtx) stmtTouch(s ast.Stmt) *touch {
 			for g := range it.groups {
 				t.add(g, it.w)
 			}
+			t.sync = t.sync || it.sync
 		}
 		c.scanExpr(x.Cond, t)
 	case *ast.RangeStmt:
@@ -287,6 +292,7 @@ func (c *fileCtx) stmtTouch(s ast.Stmt) *touch {
 			for g := range it.groups {
 				t.add(g, it.w)
 			}
+			t.sync = t.sync || it.sync
 		}
 		c.scanExpr(x.Tag, t)
 	case *ast.TypeSwitchStmt:
@@ -312,6 +318,9 @@ func (c *fileCtx) newSite(fn string, s ast.Stmt) *site {
 	}
 	if t.r || t.w {
 		st.Flags |= flagHotR
+	}
+	if t.sync {
+		st.Flags |= flagSync
 	}
 	for g := range t.groups {
 		st.groups = append(st.groups, g)
@@ -682,7 +691,7 @@ func main() {
 	// site tables for the runtime
 	var b bytes.Buffer
 	b.WriteString("// Code generated by verif instr. DO NOT EDIT.\npackage simrt\n\n")
-	b.WriteString("const (\n\tFlagHotW = 1 << iota\n\tFlagHotR\n\tFlagUncontrolledMap\n)\n\n")
+	b.WriteString("const (\n\tFlagHotW = 1 << iota\n\tFlagHotR\n\tFlagUncontrolledMap\n\tFlagSync\n)\n\n")
 	b.WriteString("var Instrumented = true\n\nvar SiteFlags = []uint8{")
 	for i, s := range sites {
 		if i%32 == 0 {
